@@ -51,6 +51,7 @@ struct Result
   double min_margin = 1e300;
   std::string sig;
   bool has_pair = false;
+  std::string fp; // hash of the bit-exact event fingerprint
 };
 
 // smallest decision margin logged by the port's rejection loops in this event
@@ -97,6 +98,7 @@ static void compare(const bxdecay0::event & ev, const vh::Recorder & rec, const 
 {
   r.ndraws = src.log.size();
   r.np     = ev.get_particles().size();
+  r.fp     = std::to_string(std::hash<std::string>()(vh::fingerprint(ev)));
   // flatten traces
   std::vector<FlatEv> pt, rt;
   std::set<size_t> pair_first; // particle indices (0-based) that are the first particle of an internal pair
@@ -347,12 +349,30 @@ static void dump_bb_trace(const vh::Recorder & rec, const vh::PlanSource & src)
 }
 
 static FILE * ev_out = nullptr;
+static FILE * gb_out = nullptr;
+
+// Dispatch projection for spec/TraceGenbb.tla: which routines genbbsub entered for a name
+static void dump_gb_trace(const vh::Recorder & rec, const bxdecay0::event & ev, const std::string & cat, const std::string & name)
+{
+  if (!gb_out) return;
+  bool alpha = !ev.get_particles().empty() && ev.get_particles().front().is_alpha();
+  std::fprintf(gb_out, "{\"e\":\"Reset\"}\n{\"e\":\"Genbb\",\"cat\":\"%s\",\"name\":\"%s\"}\n", cat.c_str(), name.substr(0, name.find('+')).c_str());
+  for (const auto & e : rec.evs) {
+    if (e.kind != 0) continue;
+    std::string r;
+    if (e.name.compare(0, 7, "scheme:") == 0) r = e.name.substr(7);
+    else if (e.name == "bb") r = "bb";
+    else continue;
+    std::fprintf(gb_out, "{\"e\":\"Enter\",\"s\":\"%s\",\"alpha\":%d}\n", r.c_str(), alpha ? 1 : 0);
+  }
+  std::fprintf(gb_out, "{\"e\":\"Exit\"}\n");
+}
 
 static void emit(const std::string & id, const Result & r, const std::string & extra = "")
 {
-  std::printf("{\"id\":\"%s\",\"cls\":\"%s\",\"detail\":\"%s\",\"ndraws\":%zu,\"np\":%zu,\"min_margin\":%.3g,\"pair\":%s,\"sig\":\"%s\"%s}\n",
+  std::printf("{\"id\":\"%s\",\"cls\":\"%s\",\"detail\":\"%s\",\"ndraws\":%zu,\"np\":%zu,\"min_margin\":%.3g,\"pair\":%s,\"sig\":\"%s\",\"fp\":\"%s\"%s}\n",
               id.c_str(), r.cls.c_str(), vh::json_escape(r.detail).c_str(), r.ndraws, r.np, r.min_margin, r.has_pair ? "true" : "false",
-              vh::json_escape(r.sig).c_str(), extra.c_str());
+              vh::json_escape(r.sig).c_str(), r.fp.c_str(), extra.c_str());
   std::fflush(stdout);
 }
 
@@ -396,6 +416,7 @@ int main(int argc, char ** argv)
     if (std::string(argv[i]) == "--sch-trace" && i + 1 < argc) sch_out = std::fopen(argv[++i], "w");
     if (std::string(argv[i]) == "--bb-trace" && i + 1 < argc) bb_out = std::fopen(argv[++i], "w");
     if (std::string(argv[i]) == "--ev-trace" && i + 1 < argc) ev_out = std::fopen(argv[++i], "w");
+    if (std::string(argv[i]) == "--gb-trace" && i + 1 < argc) gb_out = std::fopen(argv[++i], "w");
   }
   std::set<std::string> ref_bkg_inited;
   std::string line;
@@ -472,6 +493,7 @@ int main(int argc, char ** argv)
       }
       dump_trace(id, name, rec, src, ev);
       dump_sch_trace(rec, src);
+      if (r.cls != "port-exception" && r.cls != "port-error") dump_gb_trace(rec, ev, "bkg", name);
       if (r.cls != "port-exception" && r.cls != "port-error") vh::dump_ev_trace(ev_out, id, ev, name, false, 0, 0, 0, 0, false, 0);
       emit(id, r);
     } else if (kind == "D") {
@@ -622,5 +644,6 @@ int main(int argc, char ** argv)
   if (sch_out) std::fclose(sch_out);
   if (bb_out) std::fclose(bb_out);
   if (ev_out) std::fclose(ev_out);
+  if (gb_out) std::fclose(gb_out);
   return 0;
 }
